@@ -365,6 +365,16 @@ def check(prop, tier, seed, replay=None):
                                       "property": "Refines (model implements Abstract.tla)",
                                       "invariants": p2["invariants"]})
 
+    # ---- 1c. the FFT integer machine for ARBITRARY rates, block counts and chunk sizes: machine-checked
+    #          proof (TLAPS) that its invariant is inductive; FftBlocks (above, PROPERTY IndRefines) takes
+    #          exactly its transitions
+    if prop in ("C03", "C04", "C07"):
+        nobl = model.check_proof(wd)
+        cov["model_runs"].append({"module": "FftIndProofs", "tool": "tlapm", "obligations_proved": nobl, "ok": True,
+                                  "theorems": ["Spec => []IndInv", "Spec => []Safe (C07_Drift, C03_InBuffer, "
+                                               "C04_Delivers, C04_OutBound)"],
+                                  "scope": "all positive reduced rates A, B, block counts K and chunk sizes"})
+
     phase["models_s"] = round(time.time() - tph, 1); tph = time.time()
     # ---- 2. seeded scripts at realistic sizes, witnesses of repaired / known defects
     g = gen_scripts(prop, tier, rng)
